@@ -507,3 +507,33 @@ Proof.
   destruct (Rltb (accMass l) mjMINVAL) eqn:E1; [apply Rltb_true in E1; lra|].
   destruct (accCom l) as [[c0 c1] c2]. rewrite accInertia2_eq. unfold scl3. num_R. reflexivity.
 Qed.
+
+(* ------------------------------------------------------------------------------------------ *)
+(* nested attachment: FindSpec returns the spec that owns the compiler, at any nesting depth (never an intermediate spec),
+   and finds every compiler that occurs in the attachment tree *)
+Fixpoint spectree_size (t : spectree) : nat :=
+  match t with SNode _ ch => S (fold_right (fun s n => (spectree_size s + n)%nat) 0%nat ch) end.
+Lemma findSpec_spec_aux (n : nat) : forall (t : spectree) (c : Z), (spectree_size t <= n)%nat ->
+  (forall x : Z, findSpec t c = Some x -> x = c) /\ (In c (compilers t) -> findSpec t c = Some c).
+Proof.
+  induction n as [|n IH]; intros [id ch] c Hs; [simpl in Hs; lia|].
+  simpl in Hs. cbn [findSpec compilers].
+  destruct (id =? c)%Z eqn:E.
+  - apply Z.eqb_eq in E. subst id. split; [intros x X; inversion X; reflexivity | intros _; reflexivity].
+  - apply Z.eqb_neq in E.
+    assert (G : forall l : list spectree, (fold_right (fun s k => (spectree_size s + k)%nat) 0%nat l <= n)%nat ->
+              (forall x : Z, (fix go (l : list spectree) : option Z := match l with [] => None | s :: r => match findSpec s c with Some x => Some x | None => go r end end) l = Some x -> x = c) /\
+              (In c (flat_map compilers l) -> (fix go (l : list spectree) : option Z := match l with [] => None | s :: r => match findSpec s c with Some x => Some x | None => go r end end) l = Some c)).
+    { induction l as [|s r IHl]; intros Hl; simpl in Hl.
+      - split; [discriminate | intros []].
+      - destruct (IH s c ltac:(lia)) as [A B]. destruct (IHl ltac:(lia)) as [A' B'].
+        split.
+        + intros x. destruct (findSpec s c) as [y|] eqn:F; [intros X; inversion X; subst; apply A; reflexivity | apply A'].
+        + intros I. simpl in I. apply in_app_or in I. destruct (findSpec s c) as [y|] eqn:F.
+          * f_equal. apply A. reflexivity.
+          * destruct I as [I|I]; [pose proof (B I); congruence | apply B'; exact I]. }
+    destruct (G ch ltac:(lia)) as [A B]. split; [exact A|]. intros [I|I]; [contradiction | apply B; exact I].
+Qed.
+Lemma findSpec_spec (t : spectree) (c : Z) :
+  (forall x : Z, findSpec t c = Some x -> x = c) /\ (In c (compilers t) -> findSpec t c = Some c).
+Proof. apply (findSpec_spec_aux (spectree_size t)). lia. Qed.
